@@ -46,10 +46,15 @@ ASSUMPTIONS = [
     'call had already made; runs containing $sample are compared on raised / did not raise and '
     'on the pipeline object only',
     'repeatability is judged on two consecutive runs on the same database; when $out writes a '
-    'collection the pipeline reads, the second run sees other data and is not compared',
+    'collection the pipeline reads, the second run sees other data and is not compared; with '
+    '$sample in the pipeline the two runs are two draws: their answers (and whether a later stage '
+    'raises on the drawn documents) may differ as long as the pipeline object is unchanged',
 ]
 
 EDITING = {'$lookup', '$unwind', '$sample', '$out', '$addFields', '$set'}
+# classes by which the judge NAMES a failure (all four were known findings of /repo and are
+# repaired; a class is excused only while known_findings.json lists it with status "known",
+# otherwise the named failure is a VIOLATION)
 KNOWN_IDS = ('sample-pops-size', 'literal-written', 'facet-sibling-nested-addfields',
              'facet-sibling-lookup')
 
@@ -123,7 +128,7 @@ class Judge(object):
         if cls in self.known:
             self.ctx.known_seen[cls] = self.ctx.known_seen.get(cls, 0) + 1
             return
-        self.bad(case, 'known class %s is not listed' % cls, detail)
+        self.bad(case, 'repaired defect is back / class not listed as known: %s' % cls, detail)
 
     def bad(self, case, kind, detail, rank_extra=0):
         r = render(case)
@@ -175,8 +180,11 @@ class Judge(object):
                     if 'sample-pops-size' in cls1 | cls2 and is_err(r2) and not is_err(r1):
                         self.finding(case, 'sample-pops-size', 'second run: ' + r2)
                         verdicts.append('rerun:sample-pops-size')
-                    elif not is_err(r1) and not is_err(r2):
-                        pass        # random choice; sizes are judged below
+                    elif not (cls1 | cls2):
+                        # two different draws with the pipeline object unchanged: which
+                        # documents are drawn also decides whether a later stage raises
+                        # (sizes / sub-multiset are judged below, O6)
+                        pass
                     else:
                         self.bad(case, 'second run differs from the first', [r1, r2])
             elif r1 != r2:
